@@ -31,6 +31,15 @@ class AnchorLost(Exception):
     pass
 
 
+def expand_props(fn_path, props):
+    """tag closure rules (DESIGN.md 5): C16 (recovery from any reachable receiver state) is carried by every receiver-side
+    clause of the round trips C01 / C02, because its lemma is those clauses applied to an arbitrary state satisfying inv()"""
+    out = list(props)
+    if fn_path.startswith('gse_decap') and ('C01' in out or 'C02' in out) and 'C16' not in out:
+        out.append('C16')
+    return out
+
+
 # --------------------------------------------------------------------------
 # rewrite rules (all keep the number of lines)
 # --------------------------------------------------------------------------
@@ -248,12 +257,12 @@ class Splicer:
                 self.add(f.sig_end, '    requires\n', {'kind': 'kw'})
                 for c in req:
                     self.add(f.sig_end, ''.join(ind + l + '\n' for l in (c.text.rstrip() + ',').split('\n')),
-                             {'kind': 'clause', 'fn': f.path, 'cid': c.cid, 'ckind': 'requires', 'props': c.props, 'src': c.src})
+                             {'kind': 'clause', 'fn': f.path, 'cid': c.cid, 'ckind': 'requires', 'props': expand_props(f.path, c.props), 'src': c.src})
             if ens:
                 self.add(f.sig_end, '    ensures\n', {'kind': 'kw'})
                 for c in ens:
                     self.add(f.sig_end, ''.join(ind + l + '\n' for l in (c.text.rstrip() + ',').split('\n')),
-                             {'kind': 'clause', 'fn': f.path, 'cid': c.cid, 'ckind': 'ensures', 'props': c.props, 'src': c.src})
+                             {'kind': 'clause', 'fn': f.path, 'cid': c.cid, 'ckind': 'ensures', 'props': expand_props(f.path, c.props), 'src': c.src})
             if fs.decreases:
                 self.add(f.sig_end, '    decreases %s\n' % fs.decreases.strip(), {'kind': 'kw'})
             self.add(f.sig_end, '    ', {'kind': 'sep'})
@@ -502,7 +511,7 @@ def annotate(repo_src, out_dir, spec_paths, vshim_path, ghost_mods):
         'fn_index': fn_index,
         'linemap': fmap,
         'clauses': [
-            {'fn': f.path, 'cid': c.cid, 'kind': c.kind, 'props': c.props, 'text': c.text, 'src': c.src}
+            {'fn': f.path, 'cid': c.cid, 'kind': c.kind, 'props': expand_props(f.path, c.props), 'text': c.text, 'src': c.src}
             for f in spec.fns.values() for c in f.clauses
         ],
         'safe': {f.path: f.safe for f in spec.fns.values()},
